@@ -252,6 +252,7 @@ int main (int argc, char **argv) {
   char errfile[512];
   long ncrash = 0;
   printf ("CONST %d %d %d %zu\n", (int) _REDUCE_BUF_LEN, (int) _REDUCE_START_LEN, (int) _REDUCE_MAX_SYMB_LEN, sizeof (struct reduce_data));
+  fflush (stdout);
   while ((len = getline (&line, &lcap, stdin)) > 0) {
     if (nlines == cap) { cap = cap * 2 + 1024; lines = realloc (lines, cap * sizeof (char *)); }
     lines[nlines++] = strdup (line);
